@@ -53,12 +53,10 @@ pub open spec fn st_login(s: UDbV, aid: int, lrid: int, g: FolderDataV) -> UDbV 
     let a = add_folder(s, aid, lrid, g);
     UDbV { login: a.login.push((aid, lrid)), ..a }
 }
-/// the device folder: folder row and secret rows under the new id `drid`; its event rows go through
-/// `insert_device_events(device_folder_id, ..)`, i.e. into the table `device_events` with `account_id = drid`
+/// the device folder: folder row, secret rows and folder event rows under the new id `drid`, registered in account_device_folder
 pub open spec fn st_device(s: UDbV, aid: int, drid: int, g: FolderDataV) -> UDbV {
-    let a = created_folder(s, aid, drid, g.created, g.cols, g.secrets, None);
-    let b = ins_ev(a, Tbl::DeviceEvents, drid, g.events);
-    UDbV { device: b.device.push((aid, drid)), ..b }
+    let a = add_folder(s, aid, drid, g);
+    UDbV { device: a.device.push((aid, drid)), ..a }
 }
 
 // ---- schema invariants, folder side / account side ---------------------------------------------------------
@@ -448,6 +446,7 @@ pub ghost struct ImportV {
     pub login: FolderDataV,
     pub device: Option<FolderDataV>,
     pub users: Seq<FolderDataV>,
+    pub device_events: Seq<RowV>,
     pub file_events: Seq<RowV>,
 }
 /// the row ids SQLite assigned in the TARGET: the account, the login folder, the device folder, the user folders
@@ -465,7 +464,8 @@ pub open spec fn tx_device(d0: UDbV, ids: ImportIds, v: ImportV) -> UDbV {
 }
 pub open spec fn tx_users(d0: UDbV, ids: ImportIds, v: ImportV) -> UDbV { add_folders(tx_device(d0, ids, v), ids.aid, ids.rids, v.users) }
 /// the working state of the transaction after the last statement that writes a table this unit interprets
-pub open spec fn import_tx(d0: UDbV, ids: ImportIds, v: ImportV) -> UDbV { ins_ev(tx_users(d0, ids, v), Tbl::FileEvents, ids.aid, v.file_events) }
+pub open spec fn tx_devlog(d0: UDbV, ids: ImportIds, v: ImportV) -> UDbV { ins_ev(tx_users(d0, ids, v), Tbl::DeviceEvents, ids.aid, v.device_events) }
+pub open spec fn import_tx(d0: UDbV, ids: ImportIds, v: ImportV) -> UDbV { ins_ev(tx_devlog(d0, ids, v), Tbl::FileEvents, ids.aid, v.file_events) }
 /// what `AccountEntity::insert` / `FolderEntity::insert_folder` established when they ran: every id is new, every
 /// folder identifier is new
 pub open spec fn import_chain(d0: UDbV, ids: ImportIds, v: ImportV) -> bool {
@@ -477,9 +477,8 @@ pub open spec fn import_chain(d0: UDbV, ids: ImportIds, v: ImportV) -> bool {
 }
 /// (table, owner) pairs whose event rows the transaction writes
 pub open spec fn touched(ids: ImportIds, v: ImportV, t: Tbl, o: int) -> bool {
-    ||| (t == Tbl::AccountEvents || t == Tbl::FileEvents) && o == ids.aid
+    ||| t != Tbl::FolderEvents && o == ids.aid
     ||| t == Tbl::FolderEvents && (o == ids.lrid || (v.device is Some && o == ids.drid) || ids.rids.contains(o))
-    ||| t == Tbl::DeviceEvents && v.device is Some && o == ids.drid
 }
 /// the folder ids the transaction creates
 pub open spec fn new_rids(ids: ImportIds, v: ImportV) -> Seq<int> {
@@ -499,13 +498,11 @@ pub open spec fn f_account(d0: UDbV, d1: UDbV, ids: ImportIds, v: ImportV) -> bo
 pub open spec fn f_login(d0: UDbV, d1: UDbV, ids: ImportIds, v: ImportV) -> bool {
     folder_ok(d1, ids.aid, ids.lrid, v.login, v.login.events) && d1.login == d0.login.push((ids.aid, ids.lrid)) && rid_fresh(d0.fold, ids.lrid)
 }
-/// the device folder: row and secret rows under the new id, registered; its event rows are NOT in folder_events
-/// (`evs` = empty) but appended to `device_events` under owner `drid`
+/// the device folder: row, secret rows and folder event rows under the new id, registered
 #[verifier::opaque]
 pub open spec fn f_device(d0: UDbV, d1: UDbV, ids: ImportIds, v: ImportV) -> bool {
     match v.device {
-        Some(g) => folder_ok(d1, ids.aid, ids.drid, g, Seq::<RowV>::empty()) && d1.device == d0.device.push((ids.aid, ids.drid)) && rid_fresh(d0.fold, ids.drid)
-            && own(d1.ev, Tbl::DeviceEvents, ids.drid) == own(d0.ev, Tbl::DeviceEvents, ids.drid) + new_rows(Tbl::DeviceEvents, ids.drid, g.events),
+        Some(g) => folder_ok(d1, ids.aid, ids.drid, g, g.events) && d1.device == d0.device.push((ids.aid, ids.drid)) && rid_fresh(d0.fold, ids.drid),
         None => d1.device == d0.device,
     }
 }
@@ -517,6 +514,11 @@ pub open spec fn f_users(d0: UDbV, d1: UDbV, ids: ImportIds, v: ImportV) -> bool
 pub open spec fn f_logs(d0: UDbV, d1: UDbV, ids: ImportIds, v: ImportV) -> bool {
     own(d1.ev, Tbl::AccountEvents, ids.aid) == new_rows(Tbl::AccountEvents, ids.aid, v.account_events)
     && own(d1.ev, Tbl::FileEvents, ids.aid) == new_rows(Tbl::FileEvents, ids.aid, v.file_events)
+}
+/// the account's DEVICE log (the table `device_events`, owner = the new account id): exactly the source's rows, in order
+#[verifier::opaque]
+pub open spec fn f_devlog(d0: UDbV, d1: UDbV, ids: ImportIds, v: ImportV) -> bool {
+    own(d1.ev, Tbl::DeviceEvents, ids.aid) == new_rows(Tbl::DeviceEvents, ids.aid, v.device_events)
 }
 pub open spec fn imported_ident(v: ImportV, k: Seq<char>) -> bool {
     k == v.login.cols.identifier || (v.device matches Some(g) && k == g.cols.identifier) || exists|j: int| 0 <= j < v.users.len() && (#[trigger] v.users[j]).cols.identifier == k
@@ -530,21 +532,21 @@ pub open spec fn f_frame(d0: UDbV, d1: UDbV, ids: ImportIds, v: ImportV) -> bool
     &&& fk_f(d1) && db_wf(d1.fold)
 }
 pub open spec fn import_facts(d0: UDbV, d1: UDbV, ids: ImportIds, v: ImportV) -> bool {
-    f_account(d0, d1, ids, v) && f_login(d0, d1, ids, v) && f_device(d0, d1, ids, v) && f_users(d0, d1, ids, v) && f_logs(d0, d1, ids, v) && f_frame(d0, d1, ids, v)
+    f_account(d0, d1, ids, v) && f_login(d0, d1, ids, v) && f_device(d0, d1, ids, v) && f_users(d0, d1, ids, v) && f_logs(d0, d1, ids, v) && f_devlog(d0, d1, ids, v) && f_frame(d0, d1, ids, v)
 }
 /// the facts do not look at `fold.rest` (preferences, servers, system messages, ...), except that it is unchanged
 pub proof fn lemma_facts_rest(d0: UDbV, a: UDbV, b: UDbV, ids: ImportIds, v: ImportV)
     requires import_facts(d0, a, ids, v), b == (UDbV { fold: VDbV { rest: b.fold.rest, ..a.fold }, ..a }),
-    ensures f_account(d0, b, ids, v), f_login(d0, b, ids, v), f_device(d0, b, ids, v), f_users(d0, b, ids, v), f_logs(d0, b, ids, v),
+    ensures f_account(d0, b, ids, v), f_login(d0, b, ids, v), f_device(d0, b, ids, v), f_users(d0, b, ids, v), f_logs(d0, b, ids, v), f_devlog(d0, b, ids, v),
         old_folders_kept(d0, b),
         forall|k: Seq<char>| #![trigger b.fold.folders.contains_key(k)] b.fold.folders.contains_key(k) ==> d0.fold.folders.contains_key(k) || imported_ident(v, k),
         forall|t: Tbl, o: int| !touched(ids, v, t, o) ==> #[trigger] own(b.ev, t, o) == own(d0.ev, t, o),
         import_kv_not_elsewhere(d0, ids, v) ==> old_secrets_kept(d0.fold, b.fold, new_rids(ids, v)),
         fk_f(b) && db_wf(b.fold),
 {
-    reveal(f_account); reveal(f_login); reveal(f_device); reveal(f_users); reveal(f_logs);
+    reveal(f_account); reveal(f_login); reveal(f_device); reveal(f_users); reveal(f_logs); reveal(f_devlog);
     lemma_folder_ok_same(a, b, ids.aid, ids.lrid, v.login, v.login.events);
-    if v.device is Some { lemma_folder_ok_same(a, b, ids.aid, ids.drid, v.device->Some_0, Seq::<RowV>::empty()); }
+    if v.device is Some { lemma_folder_ok_same(a, b, ids.aid, ids.drid, v.device->Some_0, v.device->Some_0.events); }
     assert forall|j: int| 0 <= j < v.users.len() implies folder_ok(b, ids.aid, ids.rids[j], #[trigger] v.users[j], v.users[j].events) by {
         lemma_folder_ok_same(a, b, ids.aid, ids.rids[j], v.users[j], v.users[j].events);
     }
@@ -608,7 +610,7 @@ pub proof fn lemma_import(d0: UDbV, ids: ImportIds, v: ImportV)
     requires db_fk(d0), db_wf(d0.fold), data_wf(v), import_chain(d0, ids, v),
     ensures import_facts(d0, import_tx(d0, ids, v), ids, v),
 {
-    reveal(f_account); reveal(f_login); reveal(f_device); reveal(f_users); reveal(f_logs);
+    reveal(f_account); reveal(f_login); reveal(f_device); reveal(f_users); reveal(f_logs); reveal(f_devlog);
     let aid = ids.aid;
     let s1 = st_account(d0, aid, v.ident, v.name);
     let s2 = tx_acct(d0, ids, v);
@@ -630,26 +632,19 @@ pub proof fn lemma_import(d0: UDbV, ids: ImportIds, v: ImportV)
     let s4 = tx_device(d0, ids, v);
     if v.device is Some {
         let g = v.device->Some_0;
-        let a4 = created_folder(s3, aid, ids.drid, g.created, g.cols, g.secrets, None);
-        lemma_created_folder_f(s3, aid, ids.drid, g.created, g.cols, g.secrets, None);
+        let a4 = add_folder(s3, aid, ids.drid, g);
+        lemma_created_folder_f(s3, aid, ids.drid, g.created, g.cols, g.secrets, Some(g.events));
+        assert(g == (FolderDataV { created: g.created, cols: g.cols, secrets: g.secrets, events: g.events }));
         assert(s3.fold.folders.contains_key(gl.cols.identifier));
         assert(disjoint_if_distinct(gl, g));
-        lemma_folder_ok_kept(s3, aid, ids.lrid, gl, gl.events, aid, ids.drid, g.created, g.cols, g.secrets, None);
-        let b4 = ins_ev(a4, Tbl::DeviceEvents, ids.drid, g.events);
-        lemma_ins_ev_nonfolder(a4, Tbl::DeviceEvents, ids.drid, g.events);
+        lemma_folder_ok_kept(s3, aid, ids.lrid, gl, gl.events, aid, ids.drid, g.created, g.cols, g.secrets, Some(g.events));
         lemma_folder_ok_same(a4, s4, aid, ids.lrid, gl, gl.events);
-        let gd = FolderDataV { created: g.created, cols: g.cols, secrets: g.secrets, events: Seq::<RowV>::empty() };
-        assert(folder_ok(a4, aid, ids.drid, gd, Seq::<RowV>::empty()));
-        assert(folder_ok(a4, aid, ids.drid, g, Seq::<RowV>::empty()));
-        lemma_folder_ok_same(a4, s4, aid, ids.drid, g, Seq::<RowV>::empty());
+        lemma_folder_ok_same(a4, s4, aid, ids.drid, g, g.events);
         assert(fk_f(s4) && db_wf(s4.fold));
         assert(rid_fresh(d0.fold, ids.drid)) by {
             assert forall|k: Seq<char>| d0.fold.folders.contains_key(k) implies (#[trigger] d0.fold.folders[k]).row_id != ids.drid by {
                 assert(s3.fold.folders.contains_key(k) && s3.fold.folders[k] == d0.fold.folders[k]);
             }
-        }
-        assert(own(s4.ev, Tbl::DeviceEvents, ids.drid) == own(d0.ev, Tbl::DeviceEvents, ids.drid) + new_rows(Tbl::DeviceEvents, ids.drid, g.events)) by {
-            if ids.drid == aid { }
         }
     }
     assert(fk_f(s4) && db_wf(s4.fold));
@@ -660,14 +655,18 @@ pub proof fn lemma_import(d0: UDbV, ids: ImportIds, v: ImportV)
     lemma_add_folders_keeps(s4, aid, ids.rids, v.users, aid, ids.lrid, gl, gl.events);
     if v.device is Some {
         let g = v.device->Some_0;
-        lemma_add_folders_keeps(s4, aid, ids.rids, v.users, aid, ids.drid, g, Seq::<RowV>::empty());
+        lemma_add_folders_keeps(s4, aid, ids.rids, v.users, aid, ids.drid, g, g.events);
     }
-    // file events
+    // the account's device log, file events
+    let s5b = tx_devlog(d0, ids, v);
     let s6 = import_tx(d0, ids, v);
-    lemma_ins_ev_nonfolder(s5, Tbl::FileEvents, aid, v.file_events);
+    lemma_fresh_account_unreferenced(d0, aid, Tbl::DeviceEvents);
+    lemma_ins_ev_nonfolder(s5, Tbl::DeviceEvents, aid, v.device_events);
+    lemma_ins_ev_nonfolder(s5b, Tbl::FileEvents, aid, v.file_events);
+    assert(Seq::<DbRow>::empty() + new_rows(Tbl::DeviceEvents, aid, v.device_events) =~= new_rows(Tbl::DeviceEvents, aid, v.device_events));
     assert(Seq::<DbRow>::empty() + new_rows(Tbl::FileEvents, aid, v.file_events) =~= new_rows(Tbl::FileEvents, aid, v.file_events));
     lemma_folder_ok_same(s5, s6, aid, ids.lrid, gl, gl.events);
-    if v.device is Some { lemma_folder_ok_same(s5, s6, aid, ids.drid, v.device->Some_0, Seq::<RowV>::empty()); }
+    if v.device is Some { lemma_folder_ok_same(s5, s6, aid, ids.drid, v.device->Some_0, v.device->Some_0.events); }
     assert forall|j: int| 0 <= j < v.users.len() implies folder_ok(s6, aid, ids.rids[j], #[trigger] v.users[j], v.users[j].events) && rid_fresh(d0.fold, ids.rids[j]) by {
         lemma_folder_ok_same(s5, s6, aid, ids.rids[j], v.users[j], v.users[j].events);
         assert(rid_fresh(s4.fold, ids.rids[j]));
@@ -694,6 +693,7 @@ pub proof fn lemma_import(d0: UDbV, ids: ImportIds, v: ImportV)
         assert(own(s3.ev, t, o) == own(s2.ev, t, o));
         assert(own(s4.ev, t, o) == own(s3.ev, t, o));
         assert(own(s5.ev, t, o) == own(s4.ev, t, o));
+        assert(own(s5b.ev, t, o) == own(s5.ev, t, o));
     }
     if import_kv_not_elsewhere(d0, ids, v) {
         lemma_import_secrets_frame(d0, ids, v);
@@ -719,7 +719,7 @@ pub proof fn lemma_import_secrets_frame(d0: UDbV, ids: ImportIds, v: ImportV)
     if v.device is Some {
         let g = v.device->Some_0;
         assert(news[1] == ids.drid);
-        lemma_created_folder_f(s3, aid, ids.drid, g.created, g.cols, g.secrets, None);
+        lemma_created_folder_f(s3, aid, ids.drid, g.created, g.cols, g.secrets, Some(g.events));
         // rows of g are not in another folder of s3: not in an old folder (hypothesis), not in the login folder (disjoint)
         assert forall|i: int| 0 <= i < cols_kv(g.secrets).len() implies id_not_elsewhere(s3.fold, ids.drid, (#[trigger] cols_kv(g.secrets)[i]).0) by {
             let k = cols_kv(g.secrets)[i].0;
@@ -781,6 +781,7 @@ pub proof fn lemma_import_secrets_frame(d0: UDbV, ids: ImportIds, v: ImportV)
     let s5 = tx_users(d0, ids, v);
     let s6 = import_tx(d0, ids, v);
     assert(s6.fold == s5.fold);
+    lemma_import_login_device_ok(d0, ids, v);
     assert forall|r: int| #![auto] ids.rids.contains(r) implies news.contains(r) by {
         let i = choose|i: int| 0 <= i < ids.rids.len() && ids.rids[i] == r;
         let off = if v.device is Some { 2int } else { 1int };
@@ -809,7 +810,7 @@ pub proof fn lemma_import_login_device_ok(d0: UDbV, ids: ImportIds, v: ImportV)
     ensures ({ let s4 = tx_device(d0, ids, v);
         &&& fk_f(s4) && db_wf(s4.fold)
         &&& folder_ok(s4, ids.aid, ids.lrid, v.login, v.login.events)
-        &&& v.device matches Some(g) ==> folder_ok(s4, ids.aid, ids.drid, g, Seq::<RowV>::empty())
+        &&& v.device matches Some(g) ==> folder_ok(s4, ids.aid, ids.drid, g, g.events)
     }),
 {
     let aid = ids.aid;
@@ -825,15 +826,14 @@ pub proof fn lemma_import_login_device_ok(d0: UDbV, ids: ImportIds, v: ImportV)
     let s4 = tx_device(d0, ids, v);
     if v.device is Some {
         let g = v.device->Some_0;
-        let a4 = created_folder(s3, aid, ids.drid, g.created, g.cols, g.secrets, None);
-        lemma_created_folder_f(s3, aid, ids.drid, g.created, g.cols, g.secrets, None);
+        let a4 = add_folder(s3, aid, ids.drid, g);
+        lemma_created_folder_f(s3, aid, ids.drid, g.created, g.cols, g.secrets, Some(g.events));
+        assert(g == (FolderDataV { created: g.created, cols: g.cols, secrets: g.secrets, events: g.events }));
         assert(s3.fold.folders.contains_key(gl.cols.identifier));
         assert(disjoint_if_distinct(gl, g));
-        lemma_folder_ok_kept(s3, aid, ids.lrid, gl, gl.events, aid, ids.drid, g.created, g.cols, g.secrets, None);
-        lemma_ins_ev_nonfolder(a4, Tbl::DeviceEvents, ids.drid, g.events);
+        lemma_folder_ok_kept(s3, aid, ids.lrid, gl, gl.events, aid, ids.drid, g.created, g.cols, g.secrets, Some(g.events));
         lemma_folder_ok_same(a4, s4, aid, ids.lrid, gl, gl.events);
-        assert(folder_ok(a4, aid, ids.drid, g, Seq::<RowV>::empty()));
-        lemma_folder_ok_same(a4, s4, aid, ids.drid, g, Seq::<RowV>::empty());
+        lemma_folder_ok_same(a4, s4, aid, ids.drid, g, g.events);
     }
 }
 
@@ -854,14 +854,12 @@ pub open spec fn old_logs_kept(d0: UDbV, d1: UDbV) -> bool {
     forall|t: Tbl, o: int| (t == Tbl::FolderEvents ==> folder_rid_exists(d0.fold, o)) && (t != Tbl::FolderEvents ==> account_rid_exists(d0.accounts, o))
         ==> #[trigger] own(d1.ev, t, o) == own(d0.ev, t, o)
 }
-pub open spec fn device_events_empty(v: ImportV) -> bool { v.device matches Some(g) ==> g.events.len() == 0 }
 pub proof fn lemma_old_logs_kept(d0: UDbV, d1: UDbV, ids: ImportIds, v: ImportV)
     requires f_account(d0, d1, ids, v), f_login(d0, d1, ids, v), f_device(d0, d1, ids, v), f_users(d0, d1, ids, v),
         forall|t: Tbl, o: int| !touched(ids, v, t, o) ==> #[trigger] own(d1.ev, t, o) == own(d0.ev, t, o),
-        device_events_empty(v),
     ensures old_logs_kept(d0, d1),
 {
-    reveal(f_account); reveal(f_login); reveal(f_device); reveal(f_users); reveal(f_logs);
+    reveal(f_account); reveal(f_login); reveal(f_device); reveal(f_users); reveal(f_logs); reveal(f_devlog);
     reveal(old_logs_kept);
     assert forall|t: Tbl, o: int| (t == Tbl::FolderEvents ==> folder_rid_exists(d0.fold, o)) && (t != Tbl::FolderEvents ==> account_rid_exists(d0.accounts, o))
         implies #[trigger] own(d1.ev, t, o) == own(d0.ev, t, o) by {
@@ -872,12 +870,7 @@ pub proof fn lemma_old_logs_kept(d0: UDbV, d1: UDbV, ids: ImportIds, v: ImportV)
         } else {
             let i = choose|i: int| 0 <= i < d0.accounts.len() && (#[trigger] d0.accounts[i]).row_id == o;
             assert(o != ids.aid);
-            if t == Tbl::DeviceEvents && v.device is Some && o == ids.drid {
-                assert(new_rows(Tbl::DeviceEvents, ids.drid, v.device->Some_0.events) =~= Seq::<DbRow>::empty());
-                assert(own(d0.ev, t, o) + Seq::<DbRow>::empty() =~= own(d0.ev, t, o));
-            } else {
-                assert(!touched(ids, v, t, o));
-            }
+            assert(!touched(ids, v, t, o));
         }
     }
 }
@@ -893,14 +886,10 @@ pub proof fn lemma_ids_of(d0: UDbV, d1: UDbV, ids: ImportIds, v: ImportV)
     }
     assert(ids_of(d1, v).rids =~= ids.rids);
 }
-/// a device folder without event rows: its (empty) log is where it belongs
-pub proof fn lemma_device_events_none(d0: UDbV, d1: UDbV, ids: ImportIds, v: ImportV)
-    requires f_device(d0, d1, ids, v), device_events_empty(v),
+/// the device folder's event rows are folder event rows under its new id
+pub proof fn lemma_device_events(d0: UDbV, d1: UDbV, ids: ImportIds, v: ImportV)
+    requires f_device(d0, d1, ids, v),
     ensures v.device matches Some(g) ==> own(d1.ev, Tbl::FolderEvents, ids.drid) == new_rows(Tbl::FolderEvents, ids.drid, g.events),
 {
     reveal(f_device);
-    if v.device is Some {
-        let g = v.device->Some_0;
-        assert(new_rows(Tbl::FolderEvents, ids.drid, g.events) =~= new_rows(Tbl::FolderEvents, ids.drid, Seq::<RowV>::empty()));
-    }
 }
